@@ -486,8 +486,13 @@ fn run_poly(rep: &mut Report, mut pc: PolyCase, u: f64) {
     if !greedy_ok {
         let adj: Vec<Vec<usize>> = found.iter().map(|z| (0..deg).filter(|&j| (*z - truth[j]).norm() <= bound(j)).collect()).collect();
         if !perfect_matching(&adj) {
+            // every returned value is a root (within the bound of some true root), yet they cannot be
+            // assigned one-to-one: a root is reported twice and another one is missing. This is the
+            // signature of the Newton polish pulling two deflated approximations onto the same root
+            // (known finding D39); anything else - a value that is no root at all - is `roots/match`
+            let all_are_roots = adj.iter().all(|a| !a.is_empty());
             rep.violation(
-                "roots/match",
+                if all_are_roots { "roots/duplicate-after-polish" } else { "roots/match" },
                 case(),
                 format!(
                     "degree {} ({}): the returned values cannot be matched one-to-one with the true roots; returned #{} {:?} is {:e} from its nearest free true root {:?}, {:.3} x (tol + eps p~)/|p'|, bound {}",
@@ -976,6 +981,15 @@ fn cycle_anchor_cases() -> Vec<PolyCase> {
         .collect()
 }
 
+
+/// The input on which sweep 7 found `roots()` returning one root twice and missing another (D39):
+/// a small-scale degree-10 polynomial with real coefficients, through the complex type.
+fn duplicate_anchor_case() -> PolyCase {
+    let co: Vec<f64> = vec![-1.1647988776718397e-08, 1.0148144457295722e-07, -1.0997156177567302e-07, 4.920041364654232e-08, 3.292684785119544e-08, -3.814520825687868e-08, 2.4711815061827758e-09, 5.714289779724422e-09, -2.1736666154225536e-09, -1.4297739922019893e-10, 2.636485451045856e-10];
+    let roots: Vec<(f64, f64)> = vec![(1.2550188869624637, 2.0415952842165903), (1.2550188869624637, -2.0415952842165903), (1.670472127835147, 0.0), (-2.2523998451598812, 0.0), (0.5695251920530846, 0.9607047345476094), (0.5695251920530846, -0.9607047345476094), (-2.379055197098511, 0.47293649975589724), (-2.379055197098511, -0.47293649975589724), (0.13262408551390736, 0.0), (2.100628876565257, 0.0)];
+    PolyCase { flavour: "dense", real_type: false, exact_sparse: false, asc: co.iter().map(|v| C::new(*v, 0.0)).collect(), built_from: roots.iter().map(|r| C::new(r.0, r.1)).collect(), tol: 6.09510134741606e-11, pin: Some(5) }
+}
+
 fn ortho_cases() -> Vec<(Fam, u32, f64, f64)> {
     let mut v = vec![];
     for fam in [Fam::Legendre, Fam::Hermite, Fam::Laguerre] {
@@ -1001,6 +1015,9 @@ pub fn stages(ctx: &Ctx) -> Vec<Stage> {
         run_poly(rep, pc, u);
     }));
     let cyc = cycle_anchor_cases();
+    st.push(Stage::new("duplicate-anchor", 1, move |_i, rep| {
+        run_poly(rep, duplicate_anchor_case(), 0.0);
+    }));
     st.push(Stage::new("cycle-anchors", cyc.len() as u64, move |i, rep| {
         rep.count("cycle_anchor_cases", 1);
         run_poly(rep, cyc[i as usize].clone(), 0.0);
